@@ -87,6 +87,83 @@ func genUnmarshal(tier string, seed uint64) {
 			rec(nil)
 		}
 	}
+	_ = r
+}
+
+func genRemarshal(tier string, seed uint64) {
+	emitDefs()
+	r := &rng{s: seed}
+	n := 12
+	if tier == "thorough" {
+		n = 500
+	}
+	for _, a := range atlases {
+		for _, t := range roundtripTypes(a) {
+			for i := 0; i < n; i++ {
+				for _, f := range []string{"cbor", "json"} {
+					o := genOpts{depth: 1 + r.intn(4), jsonSafe: f == "json", roundtrip: true, tagged: a.id == 2 || a.id == 3, cbor: f == "cbor"}
+					emit("remarshal %s %d %d %s", f, a.id, tid(t), genValue(r, t, o))
+				}
+			}
+		}
+	}
+}
+
+func genClone(tier string, seed uint64) {
+	emitDefs()
+	r := &rng{s: seed}
+	n := 25
+	if tier == "thorough" {
+		n = 800
+	}
+	for _, a := range atlases {
+		for _, t := range roundtripTypes(a) {
+			for i := 0; i < n; i++ {
+				emit("clone %d %d %s", a.id, tid(t), genValue(r, t, genOpts{depth: 1 + r.intn(4), roundtrip: true, tagged: a.id == 2 || a.id == 3, cbor: true}))
+			}
+		}
+	}
+}
+
+func genPump(tier string, seed uint64) {
+	r := &rng{s: seed}
+	n := 6000
+	ncli := 300
+	if tier == "thorough" {
+		n, ncli = 200000, 3000
+	}
+	for i := 0; i < n; i++ {
+		cli := ""
+		if i < ncli {
+			cli = " cli"
+		}
+		if r.chance(1, 2) {
+			var sb strings.Builder
+			randJSON(r, r.intn(5), &sb)
+			doc := []byte(sb.String())
+			if r.chance(1, 10) && len(doc) > 1 {
+				doc = doc[:r.intn(len(doc))]
+			}
+			emit("pump json cbor nil - %s%s", hexOrDash(doc), cli)
+			if r.chance(1, 4) {
+				emit("pump json json 0a 09 %s", hexOrDash(doc))
+			}
+		} else {
+			var item []byte
+			genItem(r, r.intn(5), &item, false)
+			if r.chance(1, 10) && len(item) > 1 {
+				item = item[:r.intn(len(item))]
+			}
+			emit("pump cbor json nil - %s%s", hexOrDash(item), cli)
+			if r.chance(1, 4) {
+				emit("pump cbor cbor nil - %s", hexOrDash(item))
+			}
+		}
+	}
+}
+
+func genStore(tier string, seed uint64) {
+	emitDefs()
 	// 2. C09: integers into every numeric kind
 	nums := []reflect.Type{}
 	for _, v := range []interface{}{int8(0), uint8(0), int16(0), uint16(0), int32(0), uint32(0), int64(0), uint64(0), int(0), uint(0), uintptr(0),
@@ -121,5 +198,86 @@ func genUnmarshal(tier string, seed uint64) {
 		emit("unmarshal 1 %d f3ff8000000000000", tid(t))
 		emit("unmarshal 1 %d f7ff8000000000001", tid(t))
 	}
-	_ = r
+}
+
+func permutations(xs []string, f func([]string)) {
+	var rec func(k int)
+	rec = func(k int) {
+		if k == len(xs) {
+			f(xs)
+			return
+		}
+		for i := k; i < len(xs); i++ {
+			xs[k], xs[i] = xs[i], xs[k]
+			rec(k + 1)
+			xs[k], xs[i] = xs[i], xs[k]
+		}
+	}
+	rec(0)
+}
+
+func genOrder(tier string, seed uint64) {
+	emitDefs()
+	r := &rng{s: seed}
+	keySets := [][]string{
+		{"a", "b"}, {"b", "a", "ab"}, {"", "a", "aa", "aaa"}, {"b", "aa", "a", "ba", "c"}, {"é", "e", "z", "éa"}, {"k1", "k10", "k2", "k"},
+		{"\xff", "\x00", "a\x00", "a"}, {"zz", "y", "x", "www", "vvvv"},
+	}
+	hx := func(s string) string { return fmt.Sprintf("%x", strings.NewReplacer("\\xff", "\xff", "\\x00", "\x00").Replace(s)) }
+	type target struct {
+		aid int
+		t   reflect.Type
+	}
+	var targets []target
+	for _, aid := range []int{0, 1, 2, 3} {
+		targets = append(targets, target{aid, reflect.TypeOf(map[string]int{})}, target{aid, reflect.TypeOf(StrMap{})}, target{aid, reflect.TypeOf(map[MyStr]int{})})
+	}
+	for _, ks := range keySets {
+		for _, tg := range targets {
+			emitPerm := func(p []string) {
+				var parts []string
+				for i, k := range p {
+					parts = append(parts, fmt.Sprintf("s%s=i%d", hx(k), i+len(k)))
+				}
+				for rep := 0; rep < 3; rep++ {
+					emit("marshal %d %d 0 M{%s}", tg.aid, tid(tg.t), strings.Join(parts, ","))
+				}
+			}
+			if len(ks) <= 4 || tier == "thorough" {
+				permutations(append([]string{}, ks...), emitPerm)
+			} else {
+				for i := 0; i < 12; i++ {
+					p := append([]string{}, ks...)
+					for j := len(p) - 1; j > 0; j-- {
+						k := r.intn(j + 1)
+						p[j], p[k] = p[k], p[j]
+					}
+					emitPerm(p)
+				}
+			}
+		}
+	}
+	// struct keys via a transform to string
+	for _, aid := range []int{1, 2, 3} {
+		ks := [][2]string{{"a", "b"}, {"", "z"}, {"aa", ""}, {"b", "a"}}
+		idx := []string{"0", "1", "2", "3"}
+		permutations(idx, func(p []string) {
+			var parts []string
+			for _, i := range p {
+				k := ks[int(i[0]-'0')]
+				parts = append(parts, fmt.Sprintf("S(s%x,s%x)=s%x", k[0], k[1], i))
+			}
+			for rep := 0; rep < 3; rep++ {
+				emit("marshal %d %d 0 M{%s}", aid, tid(reflect.TypeOf(map[KeyStruct]string{})), strings.Join(parts, ","))
+			}
+		})
+	}
+	// autogenerated structs under the three field-sort modes
+	for _, aid := range []int{1, 2, 3} {
+		for _, t := range []reflect.Type{reflect.TypeOf(Nums{}), reflect.TypeOf(OmitAll{}), reflect.TypeOf(Tagged{}), reflect.TypeOf(WithPtr{})} {
+			for i := 0; i < 20; i++ {
+				emit("marshal %d %d 0 %s", aid, tid(t), genValue(r, t, genOpts{depth: 2}))
+			}
+		}
+	}
 }
